@@ -76,16 +76,36 @@ pub fn run_c11(cx: &mut Cx) {
     // generator sets: counts and api_ids in an order drawn per run, creating calls spread over
     // both nodes so that they interleave (and preempt inside create_generators)
     let n_calls = 6 + cx.ch.choose("gen_calls", 8);
+    // kind 7: an api_id nobody has used before in this process (fresh per run), requested in a
+    // forced overlap: one long request parked at a generator index drawn per run while the
+    // other node issues short and medium requests for the same api_id, then longer ones after
+    let fresh = zksim_core::prng::bytes_for(seed, b"fresh-api-id", cx.run_index, 16);
+    let s_fresh = Suite::from_idx(cx.ch.choose("g_suite", 2));
+    let long_n = 40 + cx.ch.choose("overlap_long", 160) as usize;
+    let mut calls: Vec<(Suite, u8, usize, NodeId, StepOpts)> = Vec::new();
     for _ in 0..n_calls {
         let s = Suite::from_idx(cx.ch.choose("g_suite", 2));
         let api_kind = cx.ch.choose("g_api", 7) as u8;
         let count = match cx.ch.weighted("g_count", &[6, 3, 1]) { 0 => cx.ch.choose("g_n", 9) as usize, 1 => 9 + cx.ch.choose("g_n2", 30) as usize, _ => 200 + cx.ch.choose("g_n3", 80) as usize };
         let node = if cx.ch.chance("g_at_b", 1, 2) { b } else { a };
+        calls.push((s, api_kind, count, node, StepOpts::default()));
+    }
+    if cx.ch.chance("overlap_on_fresh_api_id", 2, 3) {
+        cx.count("probe.forced_overlap_on_fresh_api_id");
+        let at = 1 + cx.ch.choose("overlap_park_at", long_n as u64);
+        calls.push((s_fresh, 7, long_n, a, StepOpts { preempt_at: Some(at), ..Default::default() }));
+        for _ in 0..(2 + cx.ch.choose("overlap_short_calls", 4)) { calls.push((s_fresh, 7, 1 + cx.ch.choose("overlap_short_n", 60) as usize, b, StepOpts::default())); }
+        calls.push((s_fresh, 7, long_n + 1 + cx.ch.choose("overlap_longer", 30) as usize, b, StepOpts::default()));
+        calls.push((s_fresh, 7, 1 + cx.ch.choose("overlap_after_n", long_n as u64) as usize, a, StepOpts::default()));
+    }
+    for (s, api_kind, count, node, opts) in calls {
         let seen2 = seen.clone();
-        cx.step(node, "create_generators", StepOpts::default(), move || {
+        let fresh = fresh.clone();
+        let fresh2 = fresh.clone();
+        cx.step(node, "create_generators", opts, move || {
             // kinds 4..6: long custom api_ids that share their first 240 octets
             let long = |tail: &[u8]| { let mut v = vec![0x41u8; 240]; v.extend_from_slice(tail); v };
-            let api: Option<Vec<u8>> = match api_kind { 0 => Some(api::api_id(s, false).to_vec()), 1 => Some(api::api_id(s, true).to_vec()), 2 => Some([b"BLIND_", api::api_id(s, true)].concat()), 3 => None, 4 => Some(long(b"-one")), 5 => Some(long(b"-two")), _ => Some(long(b"")) };
+            let api: Option<Vec<u8>> = match api_kind { 0 => Some(api::api_id(s, false).to_vec()), 1 => Some(api::api_id(s, true).to_vec()), 2 => Some([b"BLIND_", api::api_id(s, true)].concat()), 3 => None, 4 => Some(long(b"-one")), 5 => Some(long(b"-two")), 7 => Some(fresh), _ => Some(long(b"")) };
             api::generators(s, count, api.as_deref())
         }, move |cx, st| {
             let Ok(g) = st.out else { cx.log("create_generators crashed (C08's business)".into()); return; };
@@ -100,6 +120,11 @@ pub fn run_c11(cx: &mut Cx) {
                 if *p == id { cx.violation("C11", "generators/identity".into(), format!("{key}: generator {i} of {count} is the identity")); }
                 if *p == p1 { cx.violation("C11", "generators/P1".into(), format!("{key}: generator {i} of {count} equals P1")); }
                 if g[..i].contains(p) { cx.violation("C11", "generators/duplicate".into(), format!("{key}: generator {i} of {count} repeats an earlier one")); }
+            }
+            if api_kind == 7 {
+                if st.preempted > 0 { cx.count("probe.long_request_parked_while_others_ran"); }
+                let want: Vec<[u8; 48]> = rm::create_generators(s, count, &fresh2).unwrap().iter().map(|p| p.to_affine().to_compressed()).collect();
+                if g != want { cx.violation("C11", "generators/differs-from-model-under-overlap".into(), format!("{key}: create({count}) on the fresh api_id differs from the specification's list (first difference at {:?})", g.iter().zip(&want).position(|(x, y)| x != y))); }
             }
             let mut sn = seen2.borrow_mut();
             // prefix consistency against every earlier set of the same (suite, api_id)
@@ -136,5 +161,33 @@ pub fn run_c11(cx: &mut Cx) {
             }
         });
     }
+    // blind-interface generator lists under a forced overlap: a long request (many committed
+    // messages) parked inside generator creation while the other node asks for medium ones, a
+    // longer one afterwards; every merged list must equal the model's
+    // create(n, api_id) ++ create(m, "BLIND_" || api_id) and be free of repeats
+    if cx.ch.chance("blind_overlap", 1, 2) {
+        cx.count("probe.forced_overlap_on_blind_generators");
+        let s = Suite::from_idx(cx.ch.choose("pp_suite", 2));
+        let long_m = 65 + cx.ch.choose("bo_long", 70) as usize;
+        let park = 2 + cx.ch.choose("bo_park_at", long_m as u64 - 1);
+        let mut reqs: Vec<(NodeId, usize, usize, StepOpts)> = vec![(a, 1, long_m, StepOpts { preempt_at: Some(park), ..Default::default() })];
+        for _ in 0..(1 + cx.ch.choose("bo_short_calls", 3)) { reqs.push((b, 1 + cx.ch.choose("bo_n", 3) as usize, 33 + cx.ch.choose("bo_m", 40) as usize, StepOpts::default())); }
+        reqs.push((b, 2, long_m + 1 + cx.ch.choose("bo_longer", 40) as usize, StepOpts::default()));
+        reqs.push((a, 1, 1 + cx.ch.choose("bo_after", long_m as u64) as usize, StepOpts::default()));
+        for (node, n, m, opts) in reqs {
+            cx.step(node, "prepare_parameters", opts, move || api::merged_blind_generators(s, n, m, true), move |cx, st| {
+                cx.eval(&[b"pp-overlap", s.name().as_bytes(), &(n as u64).to_le_bytes(), &(m as u64).to_le_bytes()], true);
+                let Ok(Ok(g)) = st.out else { cx.log("prepare_parameters failed".into()); return; };
+                use group::Curve;
+                let api = rm::api_id(s, true);
+                let mut want: Vec<[u8; 48]> = rm::create_generators(s, n, &api).unwrap().iter().map(|p| p.to_affine().to_compressed()).collect();
+                want.extend(rm::create_generators(s, m, &[b"BLIND_".as_slice(), &api].concat()).unwrap().iter().map(|p| p.to_affine().to_compressed()));
+                let key = format!("{}/prepare_parameters({n},{m})", s.name());
+                if g != want { cx.violation("C11", "generators/blind-list-differs-from-model-under-overlap".into(), format!("{key}: first difference at {:?}", g.iter().zip(&want).position(|(x, y)| x != y))); }
+                for (i, p) in g.iter().enumerate() { if g[..i].contains(p) { cx.violation("C11", "generators/interfaces-share-a-point".into(), format!("{key}: point {i} repeats point {}", g[..i].iter().position(|q| q == p).unwrap())); break; } }
+            });
+        }
+    }
     cx.run();
+    if cx.ch.chance("concurrent_burst", 1, 6) { crate::scen_burst::generator_burst(cx, "C11"); }
 }
